@@ -56,6 +56,12 @@ config_canvas_free(struct config *cf)
 static void
 config_canvas_after_parse(struct config *cf)
 {
+	/*
+	 * The vector is passed by value, make sure it cannot be reallocated
+	 * while adding the end step.
+	 */
+	if (VECTOR_RESERVE(cf->canvas.steps, 1))
+		err(1, NULL);
 	config_steps_add_script(cf->canvas.steps, "/dev/null", "end");
 }
 
